@@ -1,3 +1,255 @@
-(* C43 placeholder while the model is validated *)
-From Coq Require Import ZArith List.
-From PCB Require Import lib.PyInt gen.Gen_arrays model.Api model.Api_env.
+(* C43 - Session API values round-trip.
+   Only statements, `exact` (or a 1-2 line assembly), Print Assumptions and non-vacuity examples here.
+
+   Model: model/Api.v (hand model of api.py / implementation.py / values / numbers / arrays.from_list, to_list, tied to
+   /repo by correspondence on real Sessions; flat array positions by the REGENERATED gen.Gen_arrays.arrays_index;
+   codepage tables REGENERATED, model/Codepage.v of C41).  E : env carries the codepage conversions and
+   Float.from_value; st is ANY session state; names are any byte strings with the stated shape
+   (scalar_name: no parenthesis, explicit sigil; array_name: "base(" ++ anything).
+
+   PARTIAL (float clause): C43_float_partial is the clause derived from a nearest-or-adjacent contract on
+   Float.from_value (a hypothesis); C43_float_model discharges the contract for the executable model of the
+   fixed from_value (fixes/D43a.patch), whose Python float primitives (frexp, ldexp, floor) are modelled as exact
+   rational operations - modelled, not verified; tied by correspondence only. *)
+From Coq Require Import String ZArith List Bool Lia.
+From PCB Require Import lib.Result lib.PyInt lib.Harness gen.Gen_arrays gen.Gen_codepages gen.Gen_codepages_dbcs.
+From PCB Require Import model.Codepage model.Api model.Api_env.
+From PCB Require Import proofs.Arrays_index_proofs proofs.Codepage_tables_proofs.
+From PCB Require Import proofs.Api_proofs proofs.Api_float_proofs proofs.Api_list_proofs proofs.Api_str_proofs.
+Import ListNotations.
+Open Scope Z_scope.
+
+(* ------------------------------------------------------------------ integers *)
+
+(* every n in -32768..32767: set_variable succeeds, get_variable and evaluate return n *)
+Theorem C43_int : forall E st name n, scalar_name name sg_int -> in16 n ->
+  let st' := fst (set_variable E st name (PInt n)) in
+  snd (set_variable E st name (PInt n)) = Ok tt /\
+  get_variable E st' name 0 = Ok (PInt n) /\
+  evaluate st' name [] = (st', Ok (PInt n)).
+Proof. exact int_roundtrip. Qed.
+Print Assumptions C43_int.
+
+(* outside the range: BASICError Overflow escapes from set_variable, nothing is stored *)
+Theorem C43_int_overflow : forall E st name n, scalar_name name sg_int -> ~ in16 n ->
+  set_variable E st name (PInt n) = (st, Err err_OVERFLOW).
+Proof. exact int_overflow. Qed.
+Print Assumptions C43_int_overflow.
+
+(* booleans are stored the BASIC way: True -> -1, False -> 0 *)
+Theorem C43_bool : forall E st name b, scalar_name name sg_int ->
+  let st' := fst (set_variable E st name (PBool b)) in
+  snd (set_variable E st name (PBool b)) = Ok tt /\
+  get_variable E st' name 0 = Ok (PInt (if b then -1 else 0)) /\
+  evaluate st' name [] = (st', Ok (PInt (if b then -1 else 0))).
+Proof. exact bool_int_roundtrip. Qed.
+Print Assumptions C43_bool.
+
+(* ------------------------------------------------------------------ strings *)
+
+(* byte strings (what get_variable returns for strings): every string of at most 255 bytes comes back *)
+Theorem C43_str_bytes : forall E st name s, scalar_name name sg_str -> zlen s <= 255 ->
+  let st' := fst (set_variable E st name (PBytes s)) in
+  snd (set_variable E st name (PBytes s)) = Ok tt /\
+  get_variable E st' name 0 = Ok (PBytes s) /\
+  evaluate st' name [] = (st', Ok (PBytes s)).
+Proof. exact bytes_roundtrip. Qed.
+Print Assumptions C43_str_bytes.
+
+Theorem C43_str_too_long : forall E st name s, scalar_name name sg_str -> 255 < zlen s ->
+  set_variable E st name (PBytes s) = (st, Err err_STRING_TOO_LONG).
+Proof. exact bytes_too_long. Qed.
+Print Assumptions C43_str_too_long.
+
+(* unicode: every character (cluster) of the repertoire of every shipped codepage is stored as codepage
+   bytes b, get_variable / evaluate return b, and the page's converter turns b back into the character (C41) *)
+Theorem C43_str_char : forall t st name u, In t all_codepages -> In u (repertoire t) -> scalar_name name sg_str ->
+  exists b,
+    let E := env_of_tables t in
+    let st' := fst (set_variable E st name (PUni u)) in
+    snd (set_variable E st name (PUni u)) = Ok tt /\
+    get_variable E st' name 0 = Ok (PBytes b) /\
+    evaluate st' name [] = (st', Ok (PBytes b)) /\
+    bytes_to_unicode t b = u.
+Proof. exact char_roundtrip. Qed.
+Print Assumptions C43_str_char.
+
+(* whole strings (up to 255 characters) over the repertoire of a single-byte page without multi-code-point clusters *)
+Theorem C43_str_string : forall t st name s, In t all_codepages -> simple_page t -> Forall (rep_char t) s ->
+  (List.length s <= 255)%nat -> scalar_name name sg_str ->
+  exists b,
+    let E := env_of_tables t in
+    let st' := fst (set_variable E st name (PUni s)) in
+    snd (set_variable E st name (PUni s)) = Ok tt /\
+    get_variable E st' name 0 = Ok (PBytes b) /\
+    evaluate st' name [] = (st', Ok (PBytes b)) /\
+    bytes_to_unicode t b = s /\ List.length b = List.length s.
+Proof. exact string_roundtrip. Qed.
+Print Assumptions C43_str_string.
+
+(* ------------------------------------------------------------------ arrays <-> nested lists *)
+
+(* nested list of constant shape sh (any rank >= 1, all sizes >= 1) into an array dimensioned to that shape
+   (bounds n_k - 1 + base), any OPTION BASE b >= 0 (BASIC has 0 and 1): set_variable succeeds and get_variable
+   returns the same nested list with every leaf x replaced by to_value (from_value x) *)
+Theorem C43_list : forall E st name base sg b sh v v' elems,
+  array_name name base sg -> 0 <= b -> s_base st = Some b ->
+  alookup (s_arrays st) base = Some (mkArr (dims_of b sh) elems) ->
+  Z.of_nat (length elems) = radix_prod b (dims_of b sh) ->
+  sh <> [] -> to_basic E v = Ok v' -> shaped E base sh v' ->
+  snd (set_variable E st name v) = Ok tt /\
+  get_variable E (fst (set_variable E st name v)) name 0 = Ok (rt E base sh v').
+Proof. exact list_roundtrip. Qed.
+Print Assumptions C43_list.
+
+(* integer arrays: to_list (from_list l) = l for every nested list of integers -32768..32767 *)
+Theorem C43_list_int : forall E st name base b sh v elems,
+  array_name name base sg_int -> 0 <= b -> s_base st = Some b ->
+  alookup (s_arrays st) base = Some (mkArr (dims_of b sh) elems) ->
+  Z.of_nat (length elems) = radix_prod b (dims_of b sh) ->
+  sh <> [] -> nested int_leaf sh v ->
+  snd (set_variable E st name v) = Ok tt /\
+  get_variable E (fst (set_variable E st name v)) name 0 = Ok v.
+Proof.
+  intros E st name base b sh v elems Hn. apply (list_roundtrip_faithful E st name base sg_int b sh v elems int_leaf);
+    [apply int_leaf_faithful; apply Hn | exact Hn].
+Qed.
+Print Assumptions C43_list_int.
+
+(* string arrays: the same for byte strings of at most 255 bytes *)
+Theorem C43_list_bytes : forall E st name base b sh v elems,
+  array_name name base sg_str -> 0 <= b -> s_base st = Some b ->
+  alookup (s_arrays st) base = Some (mkArr (dims_of b sh) elems) ->
+  Z.of_nat (length elems) = radix_prod b (dims_of b sh) ->
+  sh <> [] -> nested bytes_leaf sh v ->
+  snd (set_variable E st name v) = Ok tt /\
+  get_variable E (fst (set_variable E st name v)) name 0 = Ok v.
+Proof.
+  intros E st name base b sh v elems Hn. apply (list_roundtrip_faithful E st name base sg_str b sh v elems bytes_leaf);
+    [apply bytes_leaf_faithful; apply Hn | exact Hn].
+Qed.
+Print Assumptions C43_list_bytes.
+
+(* DIM on a session that does not know the array establishes the hypotheses of C43_list *)
+Theorem C43_dim : forall st base b dims, 0 <= b -> dims <> [] -> dims_ok b dims ->
+  (s_base st = Some b \/ (s_base st = None /\ b = 0)) -> alookup (s_arrays st) base = None ->
+  exists st', allocate st base dims = (st', Ok tt) /\ s_base st' = Some b /\
+    exists elems, alookup (s_arrays st') base = Some (mkArr dims elems) /\
+                  Z.of_nat (length elems) = radix_prod b dims /\ s_scalars st' = s_scalars st.
+Proof. exact dim_establishes. Qed.
+Print Assumptions C43_dim.
+
+(* ------------------------------------------------------------------ evaluate *)
+
+(* evaluate(name) returns what get_variable(name) returns, in every state *)
+Theorem C43_evaluate_agrees : forall E st name sg, scalar_name name sg ->
+  exists v, get_variable E st name 0 = Ok v /\ evaluate st name [] = (st, Ok v).
+Proof. exact evaluate_agrees. Qed.
+Print Assumptions C43_evaluate_agrees.
+
+(* ------------------------------------------------------------------ floats *)
+
+(* the float clause (for one environment): a non-zero Python float m * 2^e (|m| < 2^53) whose exponent is in the
+   range of the format is stored as a value of the same sign whose mantissa is within one unit in the last
+   place of the variable's type, and get_variable / evaluate return exactly that stored value *)
+Definition C43_float_statement : env -> Prop := float_statement.
+
+(* PARTIAL: from a nearest-or-adjacent contract on Float.from_value *)
+Theorem C43_float_partial : forall E, float_contract E -> C43_float_statement E.
+Proof. exact float_partial_thm. Qed.
+Print Assumptions C43_float_partial.
+
+(* the executable model of the fixed Float.from_value satisfies the contract *)
+Theorem C43_float_model : forall E, e_fv E = mbf_from_value -> C43_float_statement E.
+Proof. exact float_model_thm. Qed.
+Print Assumptions C43_float_model.
+
+(* ... and more: double variables return every Python float in range exactly ... *)
+Theorem C43_float_double_exact : forall E st name m e, e_fv E = mbf_from_value -> scalar_name name sg_dbl ->
+  m <> 0 -> Z.abs m < 2 ^ 53 -> 1 <= e + bitlen (Z.abs m) + 128 <= 255 ->
+  let st' := fst (set_variable E st name (PFloat m e)) in
+  snd (set_variable E st name (PFloat m e)) = Ok tt /\
+  get_variable E st' name 0 = Ok (mkfloat m e) /\ evaluate st' name [] = (st', Ok (mkfloat m e)).
+Proof.
+  intros E st name m e HE Hn Hm Hb Hr.
+  pose proof (float_model_set_get E st name sg_dbl m e HE Hn (or_intror eq_refl) Hm) as H. cbv zeta in H.
+  change (fmt_of sg_dbl) with Fdbl in H. rewrite double_roundtrip_exact in H by assumption. exact H.
+Qed.
+Print Assumptions C43_float_double_exact.
+
+(* ... single variables return every single-precision number (24 significant bits) exactly ... *)
+Theorem C43_float_single_exact : forall E st name m e, e_fv E = mbf_from_value -> scalar_name name sg_sng ->
+  m <> 0 -> Z.abs m < 2 ^ 24 -> 1 <= e + bitlen (Z.abs m) + 128 <= 255 ->
+  let st' := fst (set_variable E st name (PFloat m e)) in
+  snd (set_variable E st name (PFloat m e)) = Ok tt /\
+  get_variable E st' name 0 = Ok (mkfloat m e) /\ evaluate st' name [] = (st', Ok (mkfloat m e)).
+Proof.
+  intros E st name m e HE Hn Hm Hb Hr.
+  pose proof (float_model_set_get E st name sg_sng m e HE Hn (or_introl eq_refl) Hm) as H. cbv zeta in H.
+  change (fmt_of sg_sng) with Fsng in H. rewrite single_roundtrip_exact in H by assumption. exact H.
+Qed.
+Print Assumptions C43_float_single_exact.
+
+(* ... and any other float in range comes back as the NEAREST single: sign * man * 2^(e + L - 24) with
+   2 * |man * 2^(L-24) - |m|| <= 2^(L-24), L = number of bits of |m| *)
+Theorem C43_float_single_nearest : forall E st name m e, e_fv E = mbf_from_value -> scalar_name name sg_sng ->
+  m <> 0 -> in_range Fsng m e ->
+  let L := bitlen (Z.abs m) in
+  let man := mbf_round_man Fsng (Z.abs m) in
+  let r := mkfloat ((if m <? 0 then -1 else 1) * man) (e + L - 24) in
+  let st' := fst (set_variable E st name (PFloat m e)) in
+  (snd (set_variable E st name (PFloat m e)) = Ok tt /\
+   get_variable E st' name 0 = Ok r /\ evaluate st' name [] = (st', Ok r)) /\
+  (24 < L -> 2 * Z.abs (man * 2 ^ (L - 24) - Z.abs m) <= 2 ^ (L - 24)).
+Proof.
+  intros E st name m e HE Hn Hm Hr. cbv zeta. split.
+  - pose proof (float_model_set_get E st name sg_sng m e HE Hn (or_introl eq_refl) Hm) as H. cbv zeta in H.
+    change (fmt_of sg_sng) with Fsng in H. rewrite single_roundtrip_value in H by assumption. exact H.
+  - exact (proj2 (model_near_single m e Hm Hr)).
+Qed.
+Print Assumptions C43_float_single_nearest.
+
+(* ------------------------------------------------------------------ non-vacuity *)
+
+(* names, pages, and a concrete session: OPTION BASE 1, DIM A%(2,3), a 2x3 list, read back, one element evaluated,
+   a bool list (True -> -1), 0.7 into a single (nearest single 0xB33333 * 2^-24) and a double (exact), a string
+   with a non-repertoire character (dropped) *)
+Example C43_nonvacuous :
+  scalar_name [97; 37] sg_int /\ array_name [97; 37; 40; 41] [65; 37] sg_int /\
+  In (get_codepage "437") all_codepages /\ simple_page (get_codepage "437") /\
+  rep_char (get_codepage "437") 233 /\
+  in_range Fsng 3152519739159347 (-52) /\ float_contract (env_of "437") /\
+  nested int_leaf [2; 3]%nat (PList [PList [PInt 1; PInt 2; PInt 3]; PList [PInt 4; PInt 5; PInt (-32768)]]) /\
+  run (env_of "437") st_init
+    [OBase 1; ODim [65; 37] [2; 3];
+     OSet [65; 37; 40; 41] (PList [PList [PInt 1; PInt 2; PInt 3]; PList [PInt 4; PInt 5; PInt (-32768)]]);
+     OGet [65; 37; 40; 41] 0; OEval [65; 37] [2; 1];
+     OSet [66; 37; 40; 41] (PList [PBool true; PBool false]); OEval [66; 37] [1];
+     OSet [88; 33] (PFloat 3152519739159347 (-52)); OGet [88; 33] 0;
+     OSet [88; 35] (PFloat 3152519739159347 (-52)); OGet [88; 35] 0;
+     OSet [83; 36] (PUni [97; 233; 8364]); OGet [83; 36] 0; OGet [83; 36] 5]
+  = [1; 0; 1; 0; 1; 0;
+     19; 0; 3; 2; 3; 3; 0; 1; 0; 2; 0; 3; 3; 3; 0; 4; 0; 5; 0; -32768;
+     3; 0; 0; 4;
+     1; 0; 3; 0; 0; -1;
+     1; 0; 4; 0; 1; 11744051; -24;
+     1; 0; 4; 0; 1; 3152519739159347; -52;
+     1; 0; 5; 0; 2; 2; 97; 130; 5; 0; 4; 2; 97; 233].
+Proof.
+  split; [repeat split; reflexivity|].
+  split; [split; [exists [41]; reflexivity | repeat split; reflexivity]|].
+  split; [apply get_codepage_in; vm_compute; reflexivity|].
+  split; [apply simple_pageb_ok; vm_compute; reflexivity|].
+  split; [split; [discriminate | apply (in_map snd (t_entries (get_codepage "437")) ([130], [233])); apply entry_in_In; vm_compute; reflexivity]|].
+  split; [vm_compute; split; discriminate|].
+  split; [intros F m e HF Hm Hb Hr; apply model_meets_contract; assumption|].
+  split.
+  - assert (L : forall a b c, in16 a -> in16 b -> in16 c -> nested int_leaf [3%nat] (PList [PInt a; PInt b; PInt c])).
+    { intros a b c Ha Hb Hc. exists [PInt a; PInt b; PInt c].
+      split; [reflexivity|]. split; [reflexivity|]. split; [lia|].
+      repeat constructor; eexists; (split; [reflexivity | assumption]). }
+    exists [PList [PInt 1; PInt 2; PInt 3]; PList [PInt 4; PInt 5; PInt (-32768)]].
+    split; [reflexivity|]. split; [reflexivity|]. split; [lia|].
+    constructor; [apply L; unfold in16; lia|]. constructor; [apply L; unfold in16; lia | constructor].
+  - vm_compute. reflexivity.
+Qed.
